@@ -131,6 +131,9 @@ class LabelProbabilityInjector(Injector):
         # handle data type
         ret, (target_col,) = self._preprocess(data, target_col)
 
+        # never write into the caller's dictionary
+        class_probabilities = dict(class_probabilities)
+
         # determine all unique classes and classes not specified in args
         all_classes = np.unique(ret[:, target_col])
         undefined_classes = [k for k in all_classes if k not in class_probabilities]
